@@ -1272,3 +1272,137 @@ theorem visit_LInv (b0 : Book) (o : Nat) (ov mult : Dec) (mo : List Nat) (ms : L
       exact ⟨hpp, hL3⟩
 
 end Sge.Core
+
+namespace Sge.Core
+open Sge Sge.Genesis
+
+theorem loop_LInv (b0 : Book) (o : Nat) (ov mult : Dec) (mo : List Nat) (ms : List (Nat × Dec)) (thr : Int) (hmo : mo.Nodup) :
+    ∀ (q : List Nat) (f : FInfo), LInv b0 o q f →
+      (loop o ov mult mo ms thr q f).err = true ∨ LInv b0 o [] (loop o ov mult mo ms thr q f) := by
+  intro q
+  induction q with
+  | nil => intro f h; exact Or.inr h
+  | cons i rest ih =>
+    intro f h
+    unfold loop
+    simp only
+    have hv := visit_LInv b0 o ov mult mo ms thr f i rest hmo h
+    split
+    · rename_i he; exact Or.inl he
+    · rename_i he
+      split
+      · rcases hv with hv | hv | hv
+        · exact Or.inl hv
+        · exact Or.inr hv.weaken
+        · exact Or.inr hv.2
+      · rename_i hc
+        simp only [Bool.or_eq_true, decide_eq_true_eq, not_or] at hc
+        rcases hv with hv | hv | hv
+        · exact absurd hv he
+        · exact ih _ hv
+        · exact absurd hv.1 hc.1
+
+theorem Book.find_exp (b : Book) (o i : Nat) : b.pexps.find? (fun x => x.odds == o && x.idx == i) = b.getExp o i := by
+  unfold Book.getExp lookup
+  have : (fun x : PExp => x.odds == o && x.idx == i) = (fun y => PExp.key y == [o, i]) := by
+    funext x
+    simp [PExp.key]
+  rw [this]
+
+
+/-- the loop invariant holds when the loop starts -/
+theorem initFInfo_LInv (b : Book) (o betId : Nat) (A : Int) (P : Dec) (q : List Nat) (f0 : FInfo) (hI : QInv b)
+    (hq : b.getQueue o = some q) (h0 : initFInfo b o betId A P q = some f0) : LInv b o q f0 := by
+  unfold initFInfo at h0
+  simp only [bind, Option.bind_eq_some_iff, pure, Option.some.injEq] at h0
+  obtain ⟨_, _, _, _, _, _, _, _, rfl⟩ := h0
+  obtain ⟨hS, hQ⟩ := hI
+  refine ⟨hS, ?_, by show (b.getQueue o).isSome; rw [hq]; rfl, rfl, rfl, ⟨[], by simp⟩, ?_, ?_, ?_, ?_, ?_, ?_⟩
+  · intro o' q' hq'
+    unfold qvOf at hq'
+    by_cases ho : o' = o
+    · simp only [ho, if_true, Option.some.injEq] at hq'
+      subst hq'
+      rw [ho]; exact hQ o q hq
+    · simp only [ho, if_false] at hq'
+      exact hQ o' q' hq'
+  · intro i hi pe hit
+    unfold FInfo.item at hit
+    simp only [Option.map_eq_some_iff] at hit
+    obtain ⟨x, hx, rfl⟩ := hit
+    rw [List.find?_map] at hx
+    simp only [Option.map_eq_some_iff] at hx
+    obtain ⟨p, hp, rfl⟩ := hx
+    have hpm := List.mem_of_find?_eq_some hp
+    have hpi : p.idx = i := by simpa using List.find?_some hp
+    obtain ⟨_, _, e0, he0, _⟩ := (hQ o q hq).2 i hi
+    constructor
+    · show b.getPart i = some p
+      rw [← hpi]; exact Book.mem_getPart hS.sP hpm
+    · show b.getExp o i = some _
+      have : (b.expsOfOdds o).find? (fun e => e.idx == p.idx) = some e0 := by
+        unfold Book.expsOfOdds
+        rw [List.find?_filter, hpi, ← he0, ← Book.find_exp]
+        apply congrArg (fun pr => List.find? pr b.pexps)
+        funext a
+        by_cases h1 : a.odds = o <;> by_cases h2 : a.idx = i <;> simp [h1, h2]
+      rw [this]; exact he0
+  · intro i _ o'
+    exact Book.find_exp b o' i
+  · intro i p hp
+    exact ⟨p, hp, rfl, by simp [sumBy]⟩
+  · intro o' i
+    show b.totE o' i = b.totE o' i + if o' = o then sumBy (fpAt i) [] else 0
+    simp [sumBy]
+  · intro o' i
+    show b.totB o' i = b.totB o' i + if o' = o then sumBy (fbAt i) [] else 0
+    simp [sumBy]
+  · intro fl hfl
+    cases hfl
+
+/-- ProcessWager: the queue invariant is kept; every participation's total stake grows by the stakes of the
+    backing parts that name it, its promised winnings / stake on the wagered outcome (current + past rounds) by
+    the winnings / stakes of those parts; every backing part names a participation of the book and its depositor -/
+theorem processWager_sums (b b' : Book) (o betId : Nat) (ov mult : Dec) (mo : List Nat) (ms : List (Nat × Dec))
+    (thr A : Int) (P : Dec) (fulfs : List Fulf) (taken : Int) (hI : QInv b) (hmo : mo.Nodup)
+    (h : processWager b o betId ov mult mo ms thr A P = some (b', fulfs, taken)) :
+    QInv b' ∧ b'.partCount = b.partCount ∧ b'.uid = b.uid ∧
+    (∀ i p', b'.getPart i = some p' →
+      ∃ p0, b.getPart i = some p0 ∧ p0.addr = p'.addr ∧ p'.totalBet = p0.totalBet + sumBy (fbAt i) fulfs) ∧
+    (∀ o' i, b'.totE o' i = b.totE o' i + if o' = o then sumBy (fpAt i) fulfs else 0) ∧
+    (∀ o' i, b'.totB o' i = b.totB o' i + if o' = o then sumBy (fbAt i) fulfs else 0) ∧
+    (∀ fl ∈ fulfs, ∃ p0, b.getPart fl.idx = some p0 ∧ p0.addr = fl.addr) := by
+  unfold processWager at h
+  simp only [bind, Option.bind_eq_some_iff] at h
+  obtain ⟨q, hq, f0, hf0, h⟩ := h
+  have hL0 := initFInfo_LInv b o betId A P q f0 hI hq hf0
+  have hL := loop_LInv b o ov mult mo ms thr hmo q f0 hL0
+  generalize loop o ov mult mo ms thr q f0 = fL at hL h
+  unfold finishWager at h
+  split at h
+  · cases h
+  · rename_i herr
+    split at h
+    · cases h
+    · simp only [Option.some.injEq, Prod.mk.injEq] at h
+      obtain ⟨rfl, rfl, _⟩ := h
+      rcases hL with hL | hL
+      · exact absurd hL herr
+      · obtain ⟨k1, k2⟩ := Book.setQueue_keys fL.book o fL.uq hL.s.sQ hL.hasQ
+        refine ⟨⟨SInv.of_stores hL.s rfl rfl rfl rfl rfl k1 k2, ?_⟩, hL.pc, hL.uid, hL.partRel, ?_, ?_, hL.fwf⟩
+        · apply QV.mono hL.q (show (fL.book.setQueue o fL.uq).partCount = fL.book.partCount from rfl)
+          intro o' q' hq'
+          have hq0 : qvOf fL.book o fL.uq o' = some q' := by
+            unfold qvOf
+            by_cases ho : o' = o
+            · rw [ho, Book.getQueue_setQueue_self] at hq'
+              simp [ho, hq']
+            · rw [Book.getQueue_setQueue_ne _ _ _ _ (Ne.symm ho)] at hq'
+              simp [ho, hq']
+          exact ⟨(hL.q o' q' hq0).1, fun j hj => Or.inl ⟨q', hq0, hj, id⟩⟩
+        · intro o' i
+          rw [(Book.totE_congr (b := fL.book) (b' := fL.book.setQueue o fL.uq) rfl rfl o' i).1]; exact hL.totE o' i
+        · intro o' i
+          rw [(Book.totE_congr (b := fL.book) (b' := fL.book.setQueue o fL.uq) rfl rfl o' i).2]; exact hL.totB o' i
+
+end Sge.Core
